@@ -50,8 +50,15 @@ fn c17_salting() -> R {
     let nbig = 5;
     let i = choice(cat.len() + nbig);
     let (name, e) = if i < cat.len() { (cat[i].show(), build(&cat[i])) } else { let t = [100usize, 160, 330, 1200, 5000][i - cat.len()]; (format!("big({})", t), big_envelope(t)) };
-    // some receivers already carry a salt assertion (an envelope received salted, or salted twice)
-    let e = if flag() { e.add_salt_instance(Salt::from_data(vec![3u8; 10])) } else { e };
+    // some receivers already carry a salt assertion (an envelope received salted, or salted twice);
+    // some are obscured as a whole (elided / compressed / wrapped-and-encrypted) before they are salted
+    let e = match choice(5) {
+        0 => e.add_salt_instance(Salt::from_data(vec![3u8; 10])),
+        1 => e.elide(),
+        2 => e.compress().unwrap_or(e),
+        3 => e.wrap_envelope().encrypt_subject(&test_key()).unwrap_or(e),
+        _ => e,
+    };
     let before = bytes(&e);
     let size = before.len();
     let sub_before = bytes(&e.subject());
@@ -116,7 +123,9 @@ fn c17_salted_assertions() -> R {
     let s = &starts[choice(starts.len())];
     let e = build(s);
     let before = bytes(&e);
-    let (p, o) = (leaf_text(50), leaf_text(60)); // the fact being added: already present (plain / decorated) in some starts
+    // the fact being added: already present (plain / decorated) in some starts; small, or large enough for the proportional rule to matter
+    let big = choice(3);
+    let (p, o) = if big == 0 { (leaf_text(50), leaf_text(60)) } else { (leaf_text(50), format!("{}{}", leaf_text(60), "z".repeat([0, 400, 3000][big]))) };
     let plain = Envelope::new_assertion(p.clone(), o.clone());
     let had: Vec<Vec<u8>> = e.assertions().iter().map(bytes).collect();
     let had_matches = e.assertions_with_predicate(p.clone()).len();
@@ -176,7 +185,7 @@ fn parameters() -> Vec<(&'static str, Parameter)> {
     vec![("known lhs", parameters::LHS), ("known rhs", parameters::RHS), ("known 200", Parameter::new_known(200, None)), ("named p", Parameter::new_named("p")), ("static named p", Parameter::new_static_named("p")), ("named lhs", Parameter::new_named("lhs")), ("named 200 (digits)", Parameter::new_named("200"))]
 }
 fn values(i: usize) -> Envelope {
-    match i { 0 => Envelope::new(2u8), 1 => Envelope::new("text"), 2 => build(&n(l(1), vec![a(l(2), l(3))])), 3 => build(&w(l(4))), 4 => Envelope::new(KnownValue::new(9)), 5 => build(&l(5)).elide(), _ => Envelope::new_assertion("x", "y") }
+    match i { 0 => Envelope::new(rt::nonce() % 1000), 1 => Envelope::new(leaf_text(77)), 2 => build(&n(l(1), vec![a(l(2), l(3))])), 3 => build(&w(l(4))), 4 => Envelope::new(KnownValue::new(9)), 5 => build(&l(5)).elide(), _ => Envelope::new_assertion("x", "y") }
 }
 fn dates(i: usize) -> Option<dcbor::Date> { match i { 0 => None, 1 => Some(dcbor::Date::from_timestamp(1_700_000_000.0)), 2 => Some(dcbor::Date::from_timestamp(0.5)), _ => Some(dcbor::Date::from_timestamp(-1000.0)) } }
 
@@ -194,8 +203,14 @@ fn c18_expression() -> R {
     let fs = functions();
     let ps = parameters();
     let fi = choice(fs.len());
-    let np = choice(3);
-    let (x, used) = mk_expression(fi, np);
+    let np = choice(4);
+    // three parameters: drawn from 2 parameters x 2 values so that distinct entries and repeats both occur
+    let (x, used) = if np == 3 {
+        let ps = parameters();
+        let mut e = Expression::new(fs[fi].1.clone()); let mut used = vec![];
+        for _ in 0..3 { let pi = [0usize, 3][choice(2)]; let vi = choice(2); e = e.with_parameter(ps[pi].1.clone(), values(vi)); used.push((pi, vi)); }
+        (e, used)
+    } else { mk_expression(fi, np) };
     rt::note(format!("function {} params {:?}", fs[fi].0, used));
     op("Expression -> Envelope");
     let env: Envelope = x.clone().into();
@@ -331,7 +346,7 @@ fn c18_response() -> R {
 fn c18_event() -> R {
     let note = ["", "a note", " "][choice(3)];
     let di = choice(4);
-    let ci = choice(3);
+    let ci = choice(5);
     op("Event -> Envelope");
     macro_rules! run { ($t:ty, $content:expr, $cenv:expr) => {{
         let mut ev = Event::<$t>::new($content, arid(3));
@@ -366,7 +381,9 @@ fn c18_event() -> R {
     match ci {
         0 => run!(String, "content text".to_string(), Envelope::new("content text")),
         1 => run!(String, String::new(), Envelope::new("")),
-        _ => { let c = build(&n(l(1), vec![a(l(2), l(3)), a(l(4), l(5))])); run!(Envelope, c.clone(), c) }
+        2 => { let c = build(&n(l(1), vec![a(l(2), l(3)), a(l(4), l(5))])); run!(Envelope, c.clone(), c) }
+        3 => { let c = build(&w(n(l(1), vec![a(l(2), l(3))]))); run!(Envelope, c.clone(), c) }
+        _ => { let c = build(&n(w(l(1)), vec![a(l(2), l(3))])); run!(Envelope, c.clone(), c) }
     }
     Ok(())
 }
@@ -376,7 +393,7 @@ fn c18_event() -> R {
 fn c19_attachments() -> R {
     let vendors = ["com.example", "org.other"];
     let confs: [Option<&str>; 3] = [None, Some("https://example.com/v1"), Some("https://example.com/v2")];
-    let payloads = |i: usize| -> Envelope { match i { 0 => Envelope::new("payload text"), 1 => build(&n(l(1), vec![a(l(2), l(3)), a(l(4), l(5))])), 2 => build(&w(l(6))), _ => Envelope::new(KnownValue::new(33)) } };
+    let payloads = |i: usize| -> Envelope { match i { 0 => Envelope::new(leaf_text(88)), 1 => build(&n(l(1), vec![a(l(2), l(3)), a(l(4), l(5))])), 2 => build(&w(l(6))), _ => Envelope::new(KnownValue::new(33)) } };
     let natt = 1 + choice(3);
     let mut atts: Vec<(usize, usize, usize)> = vec![];
     // (bounded: the payload varies for a single attachment; with several, the later ones vary in vendor / conformsTo only)
@@ -459,9 +476,9 @@ fn c19_malformed() -> R {
 
 fn c19_types() -> R {
     let pool: Vec<(&str, Envelope)> = vec![
-        ("known Seed", Envelope::new(known_values::SEED_TYPE)), ("known PrivateKey", Envelope::new(known_values::PRIVATE_KEY_TYPE)), ("known 9999", Envelope::new(KnownValue::new(9999))),
-        ("text Person", Envelope::new("Person")), ("text Seed (same text as the known value's name)", Envelope::new("Seed")), ("integer 7777", Envelope::new(7777u16)),
-        ("annotated Person", Envelope::new("Person").add_assertion("version", 2)), ("wrapped Person", Envelope::new("Person").wrap_envelope()),
+        ("known Seed", Envelope::new(known_values::SEED_TYPE)), ("known PrivateKey", Envelope::new(known_values::PRIVATE_KEY_TYPE)), ("known 9999+", Envelope::new(KnownValue::new(9999 + rt::nonce() % 500))),
+        ("text Person", Envelope::new(format!("Person{}", rt::nonce() % 997))), ("text Seed (same text as the known value's name)", Envelope::new("Seed")), ("integer 7777", Envelope::new(7777u16)),
+        ("annotated Person", Envelope::new(format!("Person{}", rt::nonce() % 997)).add_assertion("version", 2)), ("wrapped Person", Envelope::new(format!("Person{}", rt::nonce() % 997)).wrap_envelope()),
     ];
     let added = rt::subset(pool.len());
     rt::assume(added.iter().filter(|x| **x).count() <= 3)?;
@@ -479,7 +496,7 @@ fn c19_types() -> R {
         ensure!(e.check_type_envelope(t.clone()).is_ok() == added[i], "check_type_envelope wrong", "{}", name);
     }
     op("has_type");
-    for (i, kv) in [(0usize, known_values::SEED_TYPE), (1, known_values::PRIVATE_KEY_TYPE), (2, KnownValue::new(9999))] {
+    for (i, kv) in [(0usize, known_values::SEED_TYPE), (1, known_values::PRIVATE_KEY_TYPE), (2, KnownValue::new(9999 + rt::nonce() % 500))] {
         ensure!(e.has_type(&kv) == added[i], "has_type wrong", "{}", pool[i].0);
         ensure!(e.check_type(&kv).is_ok() == added[i], "check_type wrong", "{}", pool[i].0);
     }
@@ -512,7 +529,7 @@ pub fn prop_c18() -> Prop {
         id: "C18",
         scenarios: vec![
             Scenario { name: "expression", f: c18_expression, thorough_only: false,
-                bounds: "8 functions (known named / unnamed, named, static named, named with the text of a known one, empty name, all-digit name) x 0..2 parameters out of 6 (known, named, static named, named with a known one's text; repeats allowed) x 7 value envelopes (leaf, node, wrapped, known value, elided, assertion) x expected-function check against each of the 7 functions x direct and through bytes x every digest order; 3 non-function subjects. Values are a catalogue",
+                bounds: "8 functions (known named / unnamed, named, static named, named with the text of a known one, empty name, all-digit name) x 0..2 parameters out of 7 (known, named, static named, named with a known one's text, all-digit name; repeats allowed) or 3 parameters out of 2 x 2 values (distinct entries followed by a repeat) x 7 value envelopes (leaf, node, wrapped, known value, elided, assertion) x expected-function check against each of the 7 functions x direct and through bytes x every digest order; 3 non-function subjects. Values are a catalogue",
                 api: &["Expression::new", "with_parameter", "From<Expression> for Envelope", "TryFrom<Envelope> for Expression", "TryFrom<(Envelope, Option<&Function>)>", "objects_for_parameter"] },
             Scenario { name: "request", f: c18_request, thorough_only: false,
                 bounds: "4 functions x 0..1 parameters (3 values) x note absent / empty / non-empty x date absent / integral / fractional / negative x expected function and 6 malformed variants on the canonical request (body removed / doubled / not an expression, subject retagged / untagged, note not text) x every digest order",
@@ -521,7 +538,7 @@ pub fn prop_c18() -> Prop {
                 bounds: "7 response variants (ok, result, failure default / with error, early failure default / with error, null result) x 7 value envelopes x 8 malformed variants (both, neither, bare subject, two results, retagged, untagged, wrong known-value subject, success with 'Unknown' id) x every digest order",
                 api: &["Response::new_success", "new_failure", "new_early_failure", "with_result", "with_error", "From<Response> for Envelope", "TryFrom<Envelope> for Response"] },
             Scenario { name: "event", f: c18_event, thorough_only: false,
-                bounds: "3 contents (text, empty text, node envelope) x note absent / non-empty x 4 dates x 4 malformed variants x every digest order",
+                bounds: "5 contents (text, empty text, node envelope, wrapped envelope, node with a wrapped subject) x note absent / non-empty x 4 dates x 4 malformed variants x every digest order",
                 api: &["Event::new", "with_note", "with_date", "From<Event<T>> for Envelope", "TryFrom<Envelope> for Event<T>"] },
         ],
         assumptions: { let mut v = COMMON_ASSUMPTIONS.to_vec(); v.push("payload values (functions, parameters, notes, dates) are a catalogue, not solver-quantified"); v },
